@@ -23,7 +23,7 @@ func checkC03(c *vkit.Ctx) {
 			continue
 		}
 		r := c.Rand("hist", i)
-		h := GenHistory(r, HistOpts{APIs: []string{"snap", "snap", "snap", "json", "yaml", "ssnap", "sjson"}, FailOps: true, NoHuge: true, Twins: true})
+		h := GenHistory(r, HistOpts{APIs: []string{"snap", "snap", "snap", "json", "yaml", "ssnap", "sjson"}, FailOps: true, NoHuge: true, Twins: true, Skips: true})
 		c.Guard(histSample(&h), func() { runC03(c, i, &h) })
 	}
 }
@@ -59,7 +59,7 @@ func runC03(c *vkit.Ctx, i int, h *History) {
 	}
 	for _, ts := range shared {
 		if len(ts) >= 2 {
-			for _, k := range []string{"two-live-tests-with-the-same-name-on-different-files", "prefix-related-names", "ordinals>=10", "failing-call-followed-by-call", "repeated-execution", "addressed-header", "yaml-addressed-header"} {
+			for _, k := range []string{"test-calls-snaps.Skip-after-some-calls", "two-live-tests-with-the-same-name-on-different-files", "prefix-related-names", "ordinals>=10", "failing-call-followed-by-call", "repeated-execution", "addressed-header", "yaml-addressed-header"} {
 				if h.Classes[k] {
 					nontrivial = true
 				}
